@@ -233,3 +233,31 @@ func (d *Drv) noteScale(s *stats.World) {
 		d.Stat.MaxTables = nt
 	}
 }
+
+// ArchFigures is what Stats() says about one archetype, reduced to the figures a call that was rejected for its
+// arguments cannot change: it leaves entities, components and relations alone (C10), so sizes stay; the library may
+// have prepared an empty table (or an empty archetype) before it found the error, so capacities and table counts may
+// grow - but a table cannot disappear.
+type ArchFigures struct {
+	Size, Used, Tables, Capacity, Memory int
+	NonEmpty                             string
+}
+
+// ArchetypeFigures extracts the figures, keyed by the archetype's component IDs.
+func ArchetypeFigures(s *stats.World) map[string]ArchFigures {
+	out := map[string]ArchFigures{}
+	for i := range s.Archetypes {
+		a := &s.Archetypes[i]
+		ids := append([]uint8{}, a.ComponentIDs...)
+		sort.Slice(ids, func(x, y int) bool { return ids[x] < ids[y] })
+		var ne []int
+		for j := range a.Tables {
+			if a.Tables[j].Size > 0 {
+				ne = append(ne, a.Tables[j].Size)
+			}
+		}
+		sort.Ints(ne)
+		out[fmt.Sprint(ids)] = ArchFigures{Size: a.Size, Used: a.MemoryUsed, Tables: len(a.Tables) + a.FreeTables, Capacity: a.Capacity, Memory: a.Memory, NonEmpty: fmt.Sprint(ne)}
+	}
+	return out
+}
